@@ -23,10 +23,10 @@ package ioutils
 // One Close: the hook runs only if it has not run before, and afterwards the reader is marked.
 //@ func (*readCloserWithCloseHook).Close
 //@ mode effects
-//@ effect[C36:hook-only-on-first-close] every r.onClose() where !specHookDone(r)
+//@ effect[C36:hook-only-on-first-close] every r.onClose() where !old(specHookDone(r))
 //@ ensures[C36:close-marks-reader] r.onClose != nil ==> specHookDone(r)
 
 //@ func (*readSeekCloserWithCloseHook).Close
 //@ mode effects
-//@ effect[C36:hook-only-on-first-close] every r.onClose() where !specSeekHookDone(r)
+//@ effect[C36:hook-only-on-first-close] every r.onClose() where !old(specSeekHookDone(r))
 //@ ensures[C36:close-marks-reader] r.onClose != nil ==> specSeekHookDone(r)
